@@ -175,6 +175,8 @@ def contract_env(ex, c, fi, args, kwargs, st, node, for_construct=False):
 
 def havoc_modifies(ex, c, env, st_pre, st):
     """returns post state where every (obj, field) of the modifies clause holds a fresh value"""
+    if getattr(c, "modifies_where", None):
+        raise Unsupported("call of %s: contracts with modifies_where are verified but cannot be applied at call sites" % c.target)
     pre = st_pre.copy(env=env, spec=True, old=None)
     for objexpr, fields in c.modifies:
         obj = ex.spec_eval(objexpr, pre)
@@ -246,6 +248,11 @@ def apply_contract(ex, c, fi, args, kwargs, st, k, ctl, node):
     cx = ex.cx
     cx.deps.add(c.target)
     line = getattr(node, "lineno", "?")
+    if getattr(c, "modifies_where", None) and not st.spec:
+        # a contract with a set-valued frame has no call-site model: the call must be shown unreachable
+        # (dynamic dispatch offers it for a receiver that the caller's invariants exclude)
+        cx.oblige("call:%s/unreachable-here@%s" % (short(c.target), line), st, "false", {"kind": "call-pre", "callee": c.target})
+        return None
     if st.spec:
         if not c.pure:
             raise Unsupported("call of non-pure %s inside a specification" % c.target, node)
@@ -448,7 +455,27 @@ def verify_contract(ex, c):
                                   "(store %s %s (select %s %s))" % (allowed, ot, term, ot))
                 else:
                     allowed = "(store %s %s (select %s %s))" % (allowed, obj.t, term, obj.t)
-            if ("$", "alloc") in s.heap or c.allocates:
+            # set-valued part of the frame: objects satisfying a modifies_where condition in the pre-state
+            conds = []
+            for lam, cls, fields in getattr(c, "modifies_where", []):
+                for f in fields:
+                    if f == "<dict>":
+                        k2 = (ex.schema_for(cls).cls, "<dict>")
+                    else:
+                        d = ex.field_decl(cls, f)
+                        k2 = (d[0], f) if d else None
+                    if k2 == key:
+                        bv = "r_mw%d" % next(cx.counter)
+                        ps = pre.copy(env={**pre.env, lam.args.args[0].arg: SV(bv, T.Ref(cls))})
+                        ps.bound = tuple(getattr(pre, "bound", ())) + (bv,)
+                        conds.append((bv, AND(ex.cls_test(bv, cls), ex.spec_bool(lam.body, ps))))
+            if conds:
+                a0 = alloc_term(ex, st0)
+                bv0 = conds[0][0]
+                excl = OR(*[cnd.replace(bv, bv0) for bv, cnd in conds])
+                out.append((key, "(forall ((%s Int)) (=> (and (select %s %s) (not %s)) (= (select %s %s) (select %s %s))))" % (
+                    bv0, a0, bv0, excl, term, bv0, allowed, bv0)))
+            elif ("$", "alloc") in s.heap or c.allocates:
                 a0 = alloc_term(ex, st0)
                 out.append((key, "(forall ((r Int)) (=> (select %s r) (= (select %s r) (select %s r))))" % (a0, term, allowed)))
             else:
